@@ -237,9 +237,21 @@ pub fn start_watchdog(meta: &str) {
         .and_then(|s| s.parse().ok())
         .unwrap_or(20);
     let ticks_per_s = 100u64; // USER_HZ on Linux
+    // a single case that makes the process grow by more than this many kilobytes is reported like a hang (a loop that
+    // allocates: the machine would run out of memory long before the CPU-time limit, and the kernel's out-of-memory
+    // killer would then pick its victims among unrelated processes)
+    let rss_limit_kb: u64 = std::env::var("VMON_CASE_RSS_GB").ok().and_then(|s| s.parse::<u64>().ok()).unwrap_or(3) * 1024 * 1024;
+    fn rss_kb() -> u64 {
+        std::fs::read_to_string("/proc/self/statm")
+            .ok()
+            .and_then(|s| s.split_whitespace().nth(1).and_then(|x| x.parse::<u64>().ok()))
+            .map(|pages| pages * 4)
+            .unwrap_or(0)
+    }
     std::thread::spawn(move || {
         let mut last_seq = u64::MAX;
         let mut cpu_at_change = 0u64;
+        let mut rss_at_change = 0u64;
         loop {
             std::thread::sleep(std::time::Duration::from_millis(200));
             let seq = CASE_SEQ.load(Ordering::SeqCst);
@@ -247,7 +259,26 @@ pub fn start_watchdog(meta: &str) {
             if seq != last_seq || !ARMED.load(Ordering::SeqCst) {
                 last_seq = seq;
                 cpu_at_change = cpu;
+                rss_at_change = rss_kb();
                 continue;
+            }
+            let grown = rss_kb().saturating_sub(rss_at_change);
+            if grown > rss_limit_kb * LIMIT_SCALE.load(Ordering::SeqCst).min(4) {
+                let buf = CASE_BUF.lock().unwrap_or_else(|e| e.into_inner()).clone();
+                if CASE_SEQ.load(Ordering::SeqCst) != seq {
+                    continue;
+                }
+                let meta = WATCH_META.lock().unwrap().clone();
+                let out = json!({
+                    "hang": true,
+                    "meta": meta,
+                    "cpu_s_in_one_case": (cpu - cpu_at_change) as f64 / ticks_per_s as f64,
+                    "rss_growth_gb_in_one_case": grown as f64 / 1048576.0,
+                    "witness_hex": hex(&buf),
+                    "witness_lossy": String::from_utf8_lossy(&buf),
+                });
+                println!("{}", out);
+                std::process::exit(3);
             }
             if cpu.saturating_sub(cpu_at_change) > limit_s * ticks_per_s * LIMIT_SCALE.load(Ordering::SeqCst) {
                 let buf = CASE_BUF.lock().unwrap_or_else(|e| e.into_inner()).clone();
